@@ -700,17 +700,11 @@ func c17(c *Ctx) {
 			c.ValueIs(st, st.Val, "done-from-caller", ParamV("done"))
 		}
 	})
-	c.Ob("waiter-count", "R12", "client stream admission: the count of calls waiting for stream quota goes up only when a call finds no quota on its first try, and down only when a call that had been counted is admitted (quota positive); a woken caller that finds no quota again stays counted, so every wake-up site that tests 'waiters > 0' still sees it", 2, func() {
+	c.Ob("waiter-count", "R12", "client stream admission: the count of calls waiting for stream quota goes up only when a call finds no quota on its first try, and down only when a call that had been counted is admitted (quota positive); a woken caller that finds no quota again stays counted, so every wake-up site that tests 'waiters > 0' still sees it; the first-try marker is true when the call starts and false from the first unsuccessful attempt on", 2, func() {
 		fSQ := c.field(tr, "http2Client", "streamQuota")
 		fWS := c.field(tr, "http2Client", "waitingStreams")
-		first := func(v ssa.Value) bool {
-			u, ok := v.(*ssa.UnOp)
-			if !ok {
-				return false
-			}
-			fv, ok := u.X.(*ssa.FreeVar)
-			return ok && fv.Name() == "firstTry"
-		}
+		nsf := c.fn(tr, "http2Client.NewStream")
+		var inc, dec *ssa.Store
 		n := 0
 		for _, f := range c.scope(tr) {
 			if shortName(topFunc(f)) != "internal/transport.http2Client.NewStream" {
@@ -720,18 +714,74 @@ func c17(c *Ctx) {
 				n++
 				switch {
 				case BinOpV(token.ADD, FieldLoad(fWS), ConstInt(1))(st.Val):
-					c.MustFact(st, "counted-only-when-there-is-no-quota", CmpInt(FieldLoad(fSQ), token.LEQ, 0))
-					c.MustFact(st, "counted-only-on-the-first-try", Truth(first, true))
+					inc = st
 				case BinOpV(token.SUB, FieldLoad(fWS), ConstInt(1))(st.Val):
-					c.MustFact(st, "uncounted-only-when-admitted", CmpInt(FieldLoad(fSQ), token.GTR, 0))
-					c.MustFact(st, "uncounted-only-if-it-had-been-counted", Truth(first, false))
+					dec = st
 				default:
 					c.Expect(false, st, f, "waiter-count-changes-by-one", "the waiter count is changed by something other than +1 / -1")
 				}
 			}
 		}
-		c.Expect(n == 2, nil, nil, "waiter-count-sites", "expected one increment and one decrement of the waiter count in stream admission")
 		c.WhoMayMutate("waitingStreams", fWS, c.scope(tr), "internal/transport.http2Client.NewStream", "internal/transport.NewHTTP2Client")
+		if !c.Expect(n == 2 && inc != nil && dec != nil, nil, nsf, "waiter-count-sites", "expected one increment and one decrement of the waiter count in stream admission") {
+			return
+		}
+		// the first-try marker: the captured boolean that the increment is conditioned on
+		var marker *ssa.FreeVar
+		for _, fc := range FactsAt(inc) {
+			if fc.Kind != "truth" || !fc.Pol {
+				continue
+			}
+			if u, ok := fc.X.(*ssa.UnOp); ok {
+				if fv, ok := u.X.(*ssa.FreeVar); ok {
+					marker = fv
+				}
+			}
+		}
+		if !c.Expect(marker != nil, inc, inc.Parent(), "counted-only-on-the-first-try", "the waiter count is incremented without a first-try test (a waiting call would be counted once per wake-up)") {
+			return
+		}
+		first := func(v ssa.Value) bool {
+			u, ok := v.(*ssa.UnOp)
+			if !ok {
+				return false
+			}
+			fv, ok := u.X.(*ssa.FreeVar)
+			return ok && fv.Name() == marker.Name() && fv.Parent() == v.(*ssa.UnOp).Parent()
+		}
+		c.MustFact(inc, "counted-only-when-there-is-no-quota", CmpInt(FieldLoad(fSQ), token.LEQ, 0))
+		c.MustFact(dec, "uncounted-only-when-admitted", CmpInt(FieldLoad(fSQ), token.GTR, 0))
+		c.MustFact(dec, "uncounted-only-if-it-had-been-counted", Truth(first, false))
+		// lifecycle of the marker cell in NewStream
+		var cell *ssa.Alloc
+		for _, in := range instrsWhere(nsf, func(in ssa.Instruction) bool { mc, ok := in.(*ssa.MakeClosure); return ok && mc.Fn == ssa.Value(inc.Parent()) }) {
+			mc := in.(*ssa.MakeClosure)
+			for i, fv := range inc.Parent().FreeVars {
+				if fv == marker {
+					cell, _ = mc.Bindings[i].(*ssa.Alloc)
+				}
+			}
+		}
+		if !c.Expect(cell != nil, inc, nsf, "first-try-marker-cell", "the first-try marker is not a variable of NewStream") {
+			return
+		}
+		nTrue, nFalse := 0, 0
+		for _, st := range storesTo(cell) {
+			if st.Parent() != nsf {
+				c.Expect(false, st, st.Parent(), "first-try-marker-written-by-NewStream-only", "the first-try marker is written inside a closure")
+				continue
+			}
+			switch {
+			case ConstBool(true)(st.Val):
+				nTrue++
+				c.Expect(!inLoop(st), st, nsf, "first-try-marked-once", "the first-try marker is set to true again inside the admission loop (a waiting call would be counted once per wake-up)")
+			case ConstBool(false)(st.Val):
+				nFalse++
+			default:
+				c.Expect(false, st, nsf, "first-try-marker-is-constant", "the first-try marker is assigned a non-constant value")
+			}
+		}
+		c.Expect(nTrue == 1 && nFalse >= 1, nil, nsf, "first-try-marker-lifecycle", "expected the first-try marker to be set true once before the admission loop and false after an unsuccessful attempt")
 	})
 	c.Ob("stream-quota-signal", "R12", "client: every change of the stream quota (taken by a new stream, returned by a closing stream, raised by SETTINGS) is followed, on every path on which quota is left positive and someone is waiting, by a wake-up on streamsQuotaAvailable (non-blocking token, or close-and-replace broadcast); a waiter registers itself before sleeping on that channel", 3, func() {
 		fSQ := c.field(tr, "http2Client", "streamQuota")
